@@ -408,3 +408,20 @@ class Rng:
             j = self.below(i + 1)
             xs[i], xs[j] = xs[j], xs[i]
         return xs
+
+
+def merge_results(main, extra, tag):
+    """fold the result of a sub-check (same contract as run()) into the result of a property's check"""
+    main["violations"] = list(main.get("violations", [])) + list(extra.get("violations", []))
+    main["known"] = list(main.get("known", [])) + [k for k in extra.get("known", []) if k not in main.get("known", [])]
+    main["assumptions"] = list(main.get("assumptions", [])) + [a for a in extra.get("assumptions", []) if a not in main.get("assumptions", [])]
+    c, e = main.setdefault("coverage", {}), extra.get("coverage", {})
+    for k in ("obligations", "discharged", "evaluations", "distinct_nontrivial"):
+        if isinstance(e.get(k), int):
+            c[k] = int(c.get(k, 0)) + e[k]
+    if isinstance(e.get("theorems"), list):
+        c["theorems"] = list(c.get("theorems", [])) + e["theorems"]
+    if isinstance(e.get("trusted_base"), list):
+        c["trusted_base"] = list(c.get("trusted_base", [])) + [t for t in e["trusted_base"] if t not in c.get("trusted_base", [])]
+    c[tag] = {k: v for k, v in e.items() if k not in ("theorems",)}
+    return main
